@@ -530,17 +530,42 @@ def ex8 : Member.Sys := stepM ex7 1 (.changeConfig 5 exAdd) [] [] 0
 #guard (ex8.node 1).configs.latest.voters == [1, 2, 3] && (ex8.node 1).configs.latest.ids == [1, 2, 3, 4]
 #guard (ex8.node 1).configs.committed.index == 1 && (ex8.node 1).configs.latest.term == 2
 
-/-- nodes 2 and 3 acknowledge entry 3: configuration (3,2) is committed; node 4 has caught up: the leader promotes it —
-configuration (4,2) with the voters 1, 2, 3, 4, ADJACENT to its predecessor, is the second record of `changes` -/
-def ex9 : Member.Sys :=
-  stepM ex8 1 (.replUpdates [{ id := 2, upd := .matchIndex 3 }, { id := 3, upd := .matchIndex 3 }]) [] [] 0
-def ex10 : Member.Sys := stepM ex9 1 (.replUpdates [{ id := 4, upd := .matchIndex 3 }]) [] [] 0
+/-- the leader puts the append request `q` on the wire (the post-state of the transition `Member.Trans.send`) -/
+def exSend (x : Member.Sys) (q : AppendReq) : Member.Sys :=
+  { x with cm := { x.cm with rp := { x.cm.rp with sent := q :: x.cm.rp.sent } } }
 
-#guard (ex9.node 1).commitIndex == 3 && (ex9.node 1).configs.isCommitted && ex9.changes.length == 1
-#guard (ex10.node 1).panicked.isNone && (ex10.node 1).role == .leader
-#guard ex10.changes.map (fun r => (r.node, r.pre.configs.latest.voters, r.post.configs.latest.voters)) ==
+/-- the leader replicates configuration (3,2): the request with entry 3 is handled by the nodes 2 and 3 … -/
+def exReq3 : AppendReq :=
+  { term := 2, src := 1, prevLogIndex := 2, prevLogTerm := 2, ldrCommitIndex := 2,
+    entries := (ex8.node 1).log.entries.drop 2 }
+def ex9 : Member.Sys := stepM (stepM (exSend ex8 exReq3) 2 (.append exReq3) [] [] 0) 3 (.append exReq3) [] [] 0
+/-- … and the new node 4 (it holds the bootstrap entry only) gets the entries 2 and 3 -/
+def exReq4 : AppendReq :=
+  { term := 2, src := 1, prevLogIndex := 1, prevLogTerm := 1, ldrCommitIndex := 2,
+    entries := (ex8.node 1).log.entries.drop 1 }
+def ex10 : Member.Sys := stepM (exSend ex9 exReq4) 4 (.append exReq4) [] [] 0
+/-- the match-index reports of the nodes 2 and 3 — backed by their acknowledgements of entry 3 — reach the leader:
+configuration (3,2) is committed -/
+def ex11 : Member.Sys :=
+  stepM ex10 1 (.replUpdates [{ id := 2, upd := .matchIndex 3 }, { id := 3, upd := .matchIndex 3 }]) [] [] 0
+/-- node 4 has caught up (its report is backed by its acknowledgement of entry 3): the leader promotes it — configuration
+(4,2) with the voters 1, 2, 3, 4, ADJACENT to its predecessor, is the second record of `changes` -/
+def ex12 : Member.Sys := stepM ex11 1 (.replUpdates [{ id := 4, upd := .matchIndex 3 }]) [] [] 0
+
+-- evaluation (tests, not proofs). Every step of `ex1 … ex12` is a transition of the system: the scenario is the initial
+-- segment `m1 … m15` of the run PROVED reachable in Props/AuditMember.lean (`AuditMember.c08sys_scenario_run`:
+-- `ex12 = m15`, `ReachableR (1,1) ex12`), which continues with the replication of (4,2), a crash and restart of node 4 and
+-- the commit of (4,2) by three of four voters (`m16 … m21`). (An earlier version of this scenario delivered the match-index
+-- reports WITHOUT the append requests before them — not enabled: `AuditMember.c08sys_ex10_not_enabled`.)
+#guard (ex9.node 2).log.entries.length == 3 && (ex9.node 3).log.entries.length == 3 && (ex9.node 2).panicked.isNone
+#guard ex9.cm.acks.any (fun a => a.voter == 2 && a.index == 3) && ex9.cm.acks.any (fun a => a.voter == 3 && a.index == 3)
+#guard (ex10.node 4).log.entries.length == 3 && (ex10.node 4).configs.latest.index == 3 && (ex10.node 4).panicked.isNone
+#guard ex10.cm.acks.any (fun a => a.voter == 4 && a.index == 3 && a.term == 2)
+#guard (ex11.node 1).commitIndex == 3 && (ex11.node 1).configs.isCommitted && ex11.changes.length == 1
+#guard (ex12.node 1).panicked.isNone && (ex12.node 1).role == .leader
+#guard ex12.changes.map (fun r => (r.node, r.pre.configs.latest.voters, r.post.configs.latest.voters)) ==
   [(1, [1, 2, 3], [1, 2, 3, 4]), (1, [1, 2, 3], [1, 2, 3])]
-#guard (ex10.node 1).configs.latest.index == 4 && (ex10.node 1).configs.committed.index == 3
+#guard (ex12.node 1).configs.latest.index == 4 && (ex12.node 1).configs.committed.index == 3
 
 end C08Sys
 end Raft
